@@ -196,9 +196,9 @@ func c07Request(kind, variant int) (Req, int) {
 	case 6:
 		return Req{Kind: "copy", B: c07B, N: "s" + fmt.Sprint(1+variant%2), B2: c07B, N2: "obj"}, 2
 	case 7:
-		return Req{Kind: "get_meta", B: c07B, N: "obj"}, 1
+		return Req{Kind: "get_meta", B: c07B, N: "obj"}, 2
 	case 8:
-		return Req{Kind: "get_media", B: c07B, N: "obj"}, 1
+		return Req{Kind: "get_media", B: c07B, N: "obj"}, 2
 	case 10, 11:
 		// the PUT that completes a resumable upload of obj (session opened in the setup)
 		id := variant
@@ -280,9 +280,6 @@ func genC07(out, tier string, rng *rand.Rand) {
 			for kb := 0; kb < c07Kinds; kb++ {
 				ra, na := c07Request(ka, 1)
 				rb, nb := c07Request(kb, 2)
-				if na == 1 && nb == 1 {
-					continue
-				}
 				for _, sch := range interleavings(na, nb) {
 					jobs = append(jobs, job{mk, [][]Req{{ra}, {rb}}, sch, fmt.Sprintf("pair-%d-%d", ka, kb)})
 				}
